@@ -35,7 +35,7 @@ DECL_INPUT(misc_in);
 #define LTN(x) NLT(nr_from(x, 4), NR_N)
 #endif
 
-//@job name=z256_add props=C13 enforce=sm2_z256_add layer=proved
+//@job name=z256_add props=C13,C20 enforce=sm2_z256_add layer=proved
 void h_z256_add(void)
 {
 	SETUP3;
@@ -53,7 +53,7 @@ void h_z256_sub(void)
 	DONE;
 }
 
-//@job name=z256_modp_add props=C13 enforce=sm2_z256_modp_add layer=proved
+//@job name=z256_modp_add props=C13,C20 enforce=sm2_z256_modp_add layer=proved
 void h_z256_modp_add(void)
 {
 	SETUP3;
@@ -124,7 +124,7 @@ void h_z256_modn_add(void)
 	DONE;
 }
 
-//@job name=z256_modn_sub props=C13 enforce=sm2_z256_modn_sub layer=proved
+//@job name=z256_modn_sub props=C13,C20 enforce=sm2_z256_modn_sub layer=proved
 void h_z256_modn_sub(void)
 {
 	SETUP3;
